@@ -184,6 +184,11 @@ func (pk *PublicKey) ProofToHash(m, proof []byte) (index [32]byte, err error) {
 	// [t]G + [s]([k]G) = [t+ks]G
 	tGx, tGy := curve.ScalarBaseMult(t)
 	ksGx, ksGy := curve.ScalarMult(pk.X, pk.Y, s)
+	// a scalar that is zero or not below the group order makes the multiplication
+	// return no point: such a proof is invalid, not a reason to crash
+	if tGx == nil || tGy == nil || ksGx == nil || ksGy == nil {
+		return nilIndex, ErrInvalidVRF
+	}
 	tksGx, tksGy := curve.Add(tGx, tGy, ksGx, ksGy)
 
 	// H = H1(m)
@@ -191,6 +196,9 @@ func (pk *PublicKey) ProofToHash(m, proof []byte) (index [32]byte, err error) {
 	Hx, Hy := H1(m)
 	tHx, tHy := curve.ScalarMult(Hx, Hy, t)
 	sHx, sHy := curve.ScalarMult(uHx, uHy, s)
+	if tHx == nil || tHy == nil || sHx == nil || sHy == nil {
+		return nilIndex, ErrInvalidVRF
+	}
 	tksHx, tksHy := curve.Add(tHx, tHy, sHx, sHy)
 
 	//   H2(G, H, [k]G, VRF, [t]G + [s]([k]G), [t]H + [s]VRF)
